@@ -29,10 +29,61 @@ def check(chk):
     _conj(chk)
     _sort(chk)
     _wire(chk)
+    _ratio(chk)
     chk.floor("NORM", 3)
     chk.floor("CONJ", 7)
     chk.floor("SORT", 6)
     chk.floor("WIRE", 6)
+
+
+LABEL_ONLY = {"rename", "assign_attrs", "assign_coords", "copy", "drop_vars", "reset_coords", "transpose", "sel", "isel", "squeeze", "compute", "persist"}
+
+
+def _ratio(chk):
+    """NORM.ratio - the explained variance ratio is the stored explained variance divided by the stored total variance of the
+    decomposed matrix: exactly one division of the one by the other, nothing else touches either value on the way (a floor,
+    clip or offset on the denominator makes the ratios of small-magnitude data ratios against another number than the trace
+    of the covariance matrix).  Checked in every class of the EOF family that defines the accessor."""
+    pm = chk.pm
+    n = 0
+    for cls in pm.classes.values():
+        m = cls.methods.get("explained_variance_ratio")
+        if m is None or not cls.qualname.startswith("xeofs.single"):
+            continue
+        ff = FuncFacts.of(m)
+        rets = returns_of(m)
+        tot = [p for r in rets for p in ff.paths(r.value, spine_only=False, follow=True) if reads_container(p, "total_variance")]
+        exp = [p for r in rets for p in ff.paths(r.value, spine_only=False, follow=True) if reads_container(p, "explained_variance")]
+        if not tot and not exp:
+            continue  # another definition of the ratio (rotators normalise by their own totals): not this clause
+        n += 1
+
+        def changing(p):
+            out = []
+            for o in p.ops[1:]:
+                if o.kind == "method" and o.name not in LABEL_ONLY:
+                    out.append(o)
+                elif o.kind in ("binop", "unary", "arg", "marg"):
+                    out.append(o)
+            return out
+
+        ok = bool(tot) and bool(exp)
+        why = "the ratio no longer divides the stored explained variance by the stored total variance"
+        for p in tot:
+            ch = changing(p)
+            if not (len(ch) == 1 and ch[0].kind == "binop" and ch[0].name == "Div" and ch[0].side == "R"):
+                ok = False
+                why = ("the total variance is changed on its way into the ratio (" + ", ".join(f"{o.kind}:{o.name}" for o in ch if not (o.kind == "binop" and o.name == "Div"))[:80] +
+                       "): the ratios are no longer taken against the total variance of the decomposed matrix (for data of magnitude 1e-8 a floor at machine epsilon is larger than the total variance itself)")
+        for p in exp:
+            ch = changing(p)
+            if ch and not (len(ch) == 1 and ch[0].kind == "binop" and ch[0].name == "Div" and ch[0].side == "L"):
+                # attrs.update(self.data["explained_variance"].attrs) reads metadata only
+                if not any(o.kind == "attr" and o.name == "attrs" for o in p.ops):
+                    ok = False
+                    why = "the explained variance is changed on its way into the ratio"
+        chk.check(ok, "NORM.ratio", m, rets[0] if rets else m.node, construct=f"{cls.name}.explained_variance_ratio = explained_variance / total_variance", why=why)
+    chk.require(n >= 1, "explained_variance_ratio: accessor of the EOF family vanished")
 
 
 def _norm(chk):
